@@ -159,6 +159,10 @@ StringDictionaryHTFC::StringDictionaryHTFC(IteratorDictString *it,
               // The last element is directly padded
               codeSubstr = (codeSubstr << (TABLEBITSO - ptrSubstr));
               ptrSubstr = TABLEBITSO;
+
+              // The byte following the sequence is also part of it (see
+              // below), so it must be initialized before leaving the loop
+              textStrings[bytesStrings] = 0;
               break;
             }
 
